@@ -53,12 +53,11 @@ func extractMetadata(r binary.Reader) (md *meta.Data, err error) {
 	}
 
 	pngSig := [8]byte{}
-	bytesRead, err := r.Read(pngSig[:])
-	if err != nil {
+	if _, err = io.ReadFull(r, pngSig[:]); err != nil {
+		if err == io.ErrUnexpectedEOF {
+			return nil, fmt.Errorf("unexpected EOF reading PNG header")
+		}
 		return nil, err
-	}
-	if bytesRead != len(pngSig) {
-		return nil, fmt.Errorf("unexpected EOF reading PNG header")
 	}
 	if pngSig != pngSignature {
 		return nil, fmt.Errorf("invalid PNG signature")
